@@ -111,6 +111,9 @@ struct GSpec {
     anchors: Vec<ASpec>,
     /// `aacute`-like composite: components (base, per-master offset)
     comps: Vec<(String, Vec<(f64, f64)>)>,
+    /// left out of public.openTypeCategories although categories are explicit
+    #[serde(default)]
+    nocat: bool,
 }
 
 #[derive(Clone, Debug, Serialize, Deserialize)]
@@ -132,7 +135,7 @@ impl Spec {
             self.propagate
         );
         for g in &self.glyphs {
-            s.push_str(&format!(" {}{}[", g.name, if g.export { "" } else { "(no-export)" }));
+            s.push_str(&format!(" {}{}{}[", g.name, if g.export { "" } else { "(no-export)" }, if g.nocat && self.explicit { "(no-category)" } else { "" }));
             for (i, a) in g.anchors.iter().enumerate() {
                 if i > 0 {
                     s.push(',');
@@ -226,7 +229,7 @@ fn build_design(s: &Spec) -> Design {
             }
             glyph.layers.insert(m, layer);
         }
-        if s.explicit {
+        if s.explicit && !g.nocat {
             d.categories.insert(g.name.clone(), cat.to_string());
         }
         d.glyphs.push(glyph);
@@ -269,6 +272,7 @@ fn gspec(name: &str, anchors: &[&str], n: usize) -> GSpec {
             .map(|(ai, a)| ASpec { name: a.to_string(), c: default_choice(name, ai, n) })
             .collect(),
         comps: vec![],
+        nocat: false,
     }
 }
 
@@ -366,7 +370,9 @@ fn spaces(tier: Tier) -> Vec<Space> {
         // b: absent anchors / top / top+bottom ; quick: top only
         let b_sets: Vec<&'static [&'static str]> = if quick { vec![&["top"]] } else { vec![&[], &["top"], &["top", "bottom"]] };
         let grave: Vec<Vec<&'static str>> = if quick { vec![vec!["_top", "top"]] } else { marks.clone() };
-        let comps = if quick { 1 } else { COMPOSITES };
+        // composite variants used here: none / no own anchors, constant offset / own top
+        let comp_kinds: Vec<usize> = if quick { vec![0] } else { vec![0, 1, 3] };
+        let comps = comp_kinds.len();
         let (nmodes, nl, nb, ng) = (modes.len(), layouts.len(), b_sets.len(), grave.len());
         v.push(Space {
             name: "attaching-x-mark",
@@ -389,7 +395,7 @@ fn spaces(tier: Tier) -> Vec<Space> {
                 if let Some(x) = X_SETS[d[5]] {
                     glyphs.push(gspec("x", x, n));
                 }
-                if let Some(c) = composite(d[6], n) {
+                if let Some(c) = composite(comp_kinds[d[6]], n) {
                     glyphs.push(c);
                 }
                 Spec { space: "attaching-x-mark".into(), layout, explicit, propagate, glyphs }
@@ -480,8 +486,8 @@ fn spaces(tier: Tier) -> Vec<Space> {
         let layouts = [Layout::One, Layout::Two, Layout::ThreeMid, Layout::ThreeEnds];
         v.push(Space {
             name: "layouts-export",
-            what: "4 layouts x 4 modes x non-exported glyph in {none, b, gravecomb, x[_top,top]} x acutecomb in {[_top],[_top,top],[_top,_bottom,top]}; a[top,bottom] b[top] f_i[top_1,top_2] gravecomb[_top,top]".into(),
-            radices: vec![4, 4, 4, 3],
+            what: "4 layouts x 4 modes x {all exported; b / gravecomb / x[_top,top] not exported; b / gravecomb left out of explicit categories} x acutecomb in {[_top],[_top,top],[_top,_bottom,top]}; a[top,bottom] b[top] f_i[top_1,top_2] gravecomb[_top,top]".into(),
+            radices: vec![4, 4, 6, 3],
             build: Box::new(move |d| {
                 let layout = layouts[d[0]];
                 let n = layout.masters();
@@ -502,6 +508,8 @@ fn spaces(tier: Tier) -> Vec<Space> {
                         x.export = false;
                         glyphs.push(x);
                     }
+                    4 => glyphs[1].nocat = true,
+                    5 => glyphs[4].nocat = true,
                     _ => {}
                 }
                 Spec { space: "layouts-export".into(), layout, explicit, propagate, glyphs }
@@ -998,6 +1006,16 @@ fn evaluate(d: &Design, propagate: bool) -> Eval {
             }
         }
     }
+    for (g, per) in &model.eff {
+        if model.cls.get(g) == Some(&Cls::Lig) {
+            let idx: BTreeSet<usize> = per[0].iter().filter_map(|a| split_attaching(&a.0).1).collect();
+            if let Some(max) = idx.iter().max() {
+                if (1..=*max).any(|i| !idx.contains(&i)) {
+                    st.fonts_with_null_ligature_component = 1;
+                }
+            }
+        }
+    }
     st.expected_entries = expected.len() as u64;
     st.ambiguous_glyphs_excluded = model.ambiguous.len() as u64;
 
@@ -1025,8 +1043,20 @@ fn evaluate(d: &Design, propagate: bool) -> Eval {
                 }
             }
             Mode::ByAnchors => {
-                // the source classifies nothing; the statement fixes no GDEF class. A glyph the font attaches
-                // as a mark must nevertheless be skippable as one: checked through shaping below.
+                // the source classifies nothing, so the statement fixes no class in general. A glyph that the
+                // reference rule takes as a mark AND that some expected entry attaches must be a GDEF mark,
+                // otherwise a shaper neither skips it when looking for the base nor accepts it in mkmk.
+                if want == Some(Cls::Mark) && expected.iter().any(|e| e.m == g.name) {
+                    st.gdef_glyphs_checked += 1;
+                    st.gdef_marks_checked += 1;
+                    if got != 3 {
+                        ev.viol.push(Viol {
+                            key: format!("gdef-class-wrong:mark:{got}:by-anchors"),
+                            what: format!("glyph {} attaches as a mark (no categories in the source, underscore anchor in use) but has GDEF class {got}", g.name),
+                            details: json!({"glyph": g.name, "expected_class": 3, "got": got}),
+                        });
+                    }
+                }
             }
         }
     }
@@ -1277,7 +1307,6 @@ fn evaluate(d: &Design, propagate: bool) -> Eval {
                     if pair_entries.iter().map(|p| p.comp).min() != Some(e.comp) {
                         continue;
                     }
-                    st.fonts_with_null_ligature_component = 1;
                     (None, false)
                 } else {
                     (Some((rp(e.base[m]), rp(e.mark[m]))), true)
